@@ -7,6 +7,7 @@ import (
 	"regexp"
 	"strconv"
 	"strings"
+	"sync"
 	"testing"
 	"unicode/utf8"
 
@@ -54,6 +55,9 @@ type SQLCase struct {
 	// Layered: the raw run-time environment is a chain of scopes (val.Env.Derive), the bindings
 	// alternating between the outer and the inner one
 	Layered bool `json:"layered,omitempty"`
+	// Conc: after the sequential invocations the compiled criteria are rendered by four goroutines at
+	// once, two per environment; every rendering must still be the tree over its OWN environment
+	Conc bool `json:"conc,omitempty"`
 }
 
 var uType = m.Obj(m.Field{Name: "id", T: m.Num}, m.Field{Name: "name", T: m.Str}, m.Field{Name: "at", T: m.Time}, m.Field{Name: "ok", T: m.Bool})
@@ -199,6 +203,7 @@ func genSQLCase(t *rapid.T) *SQLCase {
 			}
 			c.Bound2["u"] = u
 		}
+		c.Conc = rapid.IntRange(0, 3).Draw(t, "conc") == 0
 	}
 	return c
 }
@@ -444,7 +449,7 @@ func checkSQL(c *SQLCase) *Outcome {
 	if c.Bound2 != nil {
 		envs = append(envs, c.Bound2, c.Bound)
 	}
-	for round, bound := range envs {
+	mkEnv := func(bound map[string]*m.Val) interface{} {
 		var envObj interface{}
 		if c.Host && len(bound) > 0 {
 			hv := map[string]*m.Val{}
@@ -467,22 +472,57 @@ func checkSQL(c *SQLCase) *Outcome {
 			}
 			envObj = inner
 		}
+		return envObj
+	}
+	render := func(round string, bound map[string]*m.Val) *Outcome {
+		envObj := mkEnv(bound)
 		var sql string
 		var err error
 		if p := run.Guard(func() { sql, err = f(envObj) }); p != nil {
-			return bad("generating SQL panicked (invocation %d): %s", round+1, p.Text)
+			return bad("generating SQL panicked (invocation %s): %s", round, p.Text)
 		}
 		if err != nil {
-			return bad("generating SQL failed (invocation %d): %v", round+1, err)
+			return bad("generating SQL failed (invocation %s): %v", round, err)
 		}
 		tree, rerr := ref.ReadSQL(sql)
 		if rerr != nil {
-			return bad("the WHERE text does not read as a boolean expression (invocation %d): %v\n text: %s", round+1, rerr, sql)
+			return bad("the WHERE text does not read as a boolean expression (invocation %s): %v\n text: %s", round, rerr, sql)
 		}
 		cc := *c
 		cc.Bound = bound
 		if err := cc.matchTree(tree, want, "$"); err != nil {
-			return bad("invocation %d: %v\n text: %s\n reads as: %s", round+1, err, sql, tree)
+			return bad("invocation %s: %v\n text: %s\n reads as: %s", round, err, sql, tree)
+		}
+		return nil
+	}
+	for round, bound := range envs {
+		if o := render(fmt.Sprint(round+1), bound); o != nil {
+			return o
+		}
+	}
+	if c.Conc && c.Bound2 != nil {
+		// the same compiled criteria rendered by four goroutines at once (two per environment):
+		// each text must be the tree over the environment it was given
+		outs := make([]*Outcome, 4)
+		var wg sync.WaitGroup
+		for g := 0; g < 4; g++ {
+			wg.Add(1)
+			go func(g int) {
+				defer wg.Done()
+				bound := c.Bound
+				if g%2 == 1 {
+					bound = c.Bound2
+				}
+				for i := 0; i < 40 && outs[g] == nil; i++ {
+					outs[g] = render(fmt.Sprintf("concurrent, goroutine %d, environment %d, rendering %d", g+1, g%2+1, i+1), bound)
+				}
+			}(g)
+		}
+		wg.Wait()
+		for _, o := range outs {
+			if o != nil {
+				return o
+			}
 		}
 	}
 	conns, depth, hostile := critStats(c.C)
@@ -495,6 +535,9 @@ func checkSQL(c *SQLCase) *Outcome {
 	}
 	if c.Bound2 != nil {
 		classes = append(classes, "second-environment")
+	}
+	if c.Conc && c.Bound2 != nil {
+		classes = append(classes, "rendered-by-four-goroutines-at-once")
 	}
 	if c.Host {
 		classes = append(classes, "environment-as-go-struct")
@@ -511,7 +554,7 @@ func checkSQL(c *SQLCase) *Outcome {
 var c20 = Register(&Prop[SQLCase]{ID: "C20", Name: "sql-structure-and-quoting", Gen: genSQLCase, Check: checkSQL})
 
 func TestC20(t *testing.T) {
-	R.Rule = "criteria trees over AND / OR (binary) / NOT to depth 5 in every parent / child combination; leaves = <> > >= < <= on num / str / time / bool columns, IN lists, BETWEEN, LIKE, IS NULL; operands: literals (numbers also spelled in hex / octal / binary / with fraction or exponent, strings also as raw literals), names bound in the run-time environment (substituted by their values), names that are columns, member access on a bound object (its fields in a drawn order); one position in five repeats a condition or group generated earlier in the same tree; one case in three invokes the compiled criteria with a second environment and then the first again; one case in four passes the environments as Go structs, one in four as a chain of two scopes (val.Env.Derive) with the bindings spread over both; strings from a hostile pool (all three quote characters, backslashes, control characters, NUL, non-ASCII, SQL look-alikes) and random ones; finite numbers incl. > 2^53, >= 2^63, 1e21, 5e-324; oracle: the output is read back by a SQL reader with standard precedence (comparison, NOT, AND, OR) and, with same-connective nesting flattened, must be the criteria tree; each string operand is exactly one literal token that decodes to the operand, numbers are plain positional decimals that read back exactly, booleans 1 / 0, times from_unixtime(unix); non-trivial = >= 2 different connectives, or a string operand with a quote or backslash"
+	R.Rule = "criteria trees over AND / OR (binary) / NOT to depth 5 in every parent / child combination; leaves = <> > >= < <= on num / str / time / bool columns, IN lists, BETWEEN, LIKE, IS NULL; operands: literals (numbers also spelled in hex / octal / binary / with fraction or exponent, strings also as raw literals), names bound in the run-time environment (substituted by their values), names that are columns, member access on a bound object (its fields in a drawn order); one position in five repeats a condition or group generated earlier in the same tree; one case in three invokes the compiled criteria with a second environment and then the first again, and one in four of those then renders it from four goroutines at once (two per environment, 40 renderings each, every text judged against its own environment); one case in four passes the environments as Go structs, one in four as a chain of two scopes (val.Env.Derive) with the bindings spread over both; strings from a hostile pool (all three quote characters, backslashes, control characters, NUL, non-ASCII, SQL look-alikes) and random ones; finite numbers incl. > 2^53, >= 2^63, 1e21, 5e-324; oracle: the output is read back by a SQL reader with standard precedence (comparison, NOT, AND, OR) and, with same-connective nesting flattened, must be the criteria tree; each string operand is exactly one literal token that decodes to the operand, numbers are plain positional decimals that read back exactly, booleans 1 / 0, times from_unixtime(unix); non-trivial = >= 2 different connectives, or a string operand with a quote or backslash"
 	R.Assume = []string{"ref.ReadSQL (harness) is standard SQL precedence; faithfulness of control-character escapes under a particular SQL dialect is not checked"}
 	reportKnown(t, "C20")
 	runRegress(t, "C20")
